@@ -3,6 +3,15 @@
 
 package astits
 
+import (
+	"errors"
+	"io"
+	"sort"
+	"time"
+
+	"github.com/asticode/go-astikit"
+)
+
 // Add-only exports used by the verification harness in /verif. This file is
 // compiled only with -tags verif; it contains wrappers and no logic.
 
@@ -14,3 +23,344 @@ func VerifUpdateCRC32(crc32 uint32, bs []byte) uint32 { return updateCRC32(crc32
 
 // VerifCRC32Table returns a copy of tableCRC32
 func VerifCRC32Table() [256]uint32 { return tableCRC32 }
+
+func verifWriter(w io.Writer) *astikit.BitsWriter {
+	return astikit.NewBitsWriter(astikit.BitsWriterOptions{Writer: w})
+}
+
+// ---- packet.go ----
+
+// VerifParsePacket exposes parsePacket on one packet-sized buffer
+func VerifParsePacket(bs []byte, s PacketSkipper) (*Packet, error) {
+	return parsePacket(astikit.NewBytesIterator(bs), s)
+}
+
+// VerifIsSkipped reports whether err is the internal "skipped packet" error
+func VerifIsSkipped(err error) bool { return errors.Is(err, errSkippedPacket) }
+
+// VerifWritePacket exposes writePacket
+func VerifWritePacket(w io.Writer, p *Packet, targetPacketSize int) (int, error) {
+	return writePacket(verifWriter(w), p, targetPacketSize)
+}
+
+// VerifParsePCR exposes parsePCR
+func VerifParsePCR(bs []byte) (*ClockReference, error) { return parsePCR(astikit.NewBytesIterator(bs)) }
+
+// VerifWritePCR exposes writePCR
+func VerifWritePCR(w io.Writer, cr *ClockReference) (int, error) { return writePCR(verifWriter(w), cr) }
+
+// VerifCalcPacketAdaptationFieldLength exposes calcPacketAdaptationFieldLength
+func VerifCalcPacketAdaptationFieldLength(af *PacketAdaptationField) uint8 {
+	return calcPacketAdaptationFieldLength(af)
+}
+
+// ---- data_pes.go ----
+
+// VerifParsePESData exposes parsePESData
+func VerifParsePESData(bs []byte) (*PESData, error) {
+	return parsePESData(astikit.NewBytesIterator(bs))
+}
+
+// VerifWritePESData exposes writePESData
+func VerifWritePESData(w io.Writer, h *PESHeader, payloadLeft []byte, isPayloadStart bool, bytesAvailable int) (int, int, error) {
+	return writePESData(verifWriter(w), h, payloadLeft, isPayloadStart, bytesAvailable)
+}
+
+// VerifWritePESHeader exposes writePESHeader
+func VerifWritePESHeader(w io.Writer, h *PESHeader, payloadSize int) (int, error) {
+	return writePESHeader(verifWriter(w), h, payloadSize)
+}
+
+// VerifWritePESOptionalHeader exposes writePESOptionalHeader
+func VerifWritePESOptionalHeader(w io.Writer, h *PESOptionalHeader) (int, error) {
+	return writePESOptionalHeader(verifWriter(w), h)
+}
+
+// VerifCalcPESOptionalHeaderLength exposes calcPESOptionalHeaderLength
+func VerifCalcPESOptionalHeaderLength(h *PESOptionalHeader) uint8 {
+	return calcPESOptionalHeaderLength(h)
+}
+
+// VerifParsePTSOrDTS exposes parsePTSOrDTS
+func VerifParsePTSOrDTS(bs []byte) (*ClockReference, error) {
+	return parsePTSOrDTS(astikit.NewBytesIterator(bs))
+}
+
+// VerifWritePTSOrDTS exposes writePTSOrDTS
+func VerifWritePTSOrDTS(w io.Writer, flag uint8, cr *ClockReference) (int, error) {
+	return writePTSOrDTS(verifWriter(w), flag, cr)
+}
+
+// VerifParseESCR exposes parseESCR
+func VerifParseESCR(bs []byte) (*ClockReference, error) {
+	return parseESCR(astikit.NewBytesIterator(bs))
+}
+
+// VerifWriteESCR exposes writeESCR
+func VerifWriteESCR(w io.Writer, cr *ClockReference) (int, error) { return writeESCR(verifWriter(w), cr) }
+
+// VerifParseDSMTrickMode exposes parseDSMTrickMode
+func VerifParseDSMTrickMode(b byte) *DSMTrickMode { return parseDSMTrickMode(b) }
+
+// VerifWriteDSMTrickMode exposes writeDSMTrickMode
+func VerifWriteDSMTrickMode(w io.Writer, m *DSMTrickMode) (int, error) {
+	return writeDSMTrickMode(verifWriter(w), m)
+}
+
+// ---- data_psi.go and tables ----
+
+// VerifParsePSIData exposes parsePSIData
+func VerifParsePSIData(bs []byte) (*PSIData, error) {
+	return parsePSIData(astikit.NewBytesIterator(bs))
+}
+
+// VerifWritePSIData exposes writePSIData
+func VerifWritePSIData(w io.Writer, d *PSIData) (int, error) { return writePSIData(verifWriter(w), d) }
+
+// VerifPSIToData exposes PSIData.toData
+func VerifPSIToData(d *PSIData, firstPacket *Packet, pid uint16) []*DemuxerData {
+	return d.toData(firstPacket, pid)
+}
+
+// VerifCalcPSISectionLength exposes calcPSISectionLength
+func VerifCalcPSISectionLength(s *PSISection) uint16 { return calcPSISectionLength(s) }
+
+// VerifCalcPATSectionLength exposes calcPATSectionLength
+func VerifCalcPATSectionLength(d *PATData) uint16 { return calcPATSectionLength(d) }
+
+// VerifCalcPMTSectionLength exposes calcPMTSectionLength
+func VerifCalcPMTSectionLength(d *PMTData) uint16 { return calcPMTSectionLength(d) }
+
+// VerifStreamTypeToPESStreamID exposes StreamType.ToPESStreamID
+func VerifStreamTypeToPESStreamID(t StreamType) uint8 { return t.ToPESStreamID() }
+
+// ---- descriptor.go ----
+
+// VerifParseDescriptors exposes parseDescriptors (the input starts with the 12-bit loop length)
+func VerifParseDescriptors(bs []byte) ([]*Descriptor, error) {
+	return parseDescriptors(astikit.NewBytesIterator(bs))
+}
+
+// VerifParseDescriptorsAt exposes parseDescriptors and reports the iterator offset afterwards
+func VerifParseDescriptorsAt(bs []byte, offset int) ([]*Descriptor, int, error) {
+	i := astikit.NewBytesIterator(bs)
+	i.Seek(offset)
+	ds, err := parseDescriptors(i)
+	return ds, i.Offset(), err
+}
+
+// VerifWriteDescriptorsWithLength exposes writeDescriptorsWithLength
+func VerifWriteDescriptorsWithLength(w io.Writer, ds []*Descriptor) (int, error) {
+	return writeDescriptorsWithLength(verifWriter(w), ds)
+}
+
+// VerifWriteDescriptors exposes writeDescriptors
+func VerifWriteDescriptors(w io.Writer, ds []*Descriptor) (int, error) {
+	return writeDescriptors(verifWriter(w), ds)
+}
+
+// VerifWriteDescriptor exposes writeDescriptor
+func VerifWriteDescriptor(w io.Writer, d *Descriptor) (int, error) {
+	return writeDescriptor(verifWriter(w), d)
+}
+
+// VerifCalcDescriptorLength exposes calcDescriptorLength
+func VerifCalcDescriptorLength(d *Descriptor) uint8 { return calcDescriptorLength(d) }
+
+// VerifCalcDescriptorsLength exposes calcDescriptorsLength
+func VerifCalcDescriptorsLength(ds []*Descriptor) uint16 { return calcDescriptorsLength(ds) }
+
+// ---- dvb.go ----
+
+// VerifParseDVBTime exposes parseDVBTime
+func VerifParseDVBTime(bs []byte) (time.Time, error) {
+	return parseDVBTime(astikit.NewBytesIterator(bs))
+}
+
+// VerifWriteDVBTime exposes writeDVBTime
+func VerifWriteDVBTime(w io.Writer, t time.Time) (int, error) { return writeDVBTime(verifWriter(w), t) }
+
+// VerifParseDVBDurationMinutes exposes parseDVBDurationMinutes
+func VerifParseDVBDurationMinutes(bs []byte) (time.Duration, error) {
+	return parseDVBDurationMinutes(astikit.NewBytesIterator(bs))
+}
+
+// VerifParseDVBDurationSeconds exposes parseDVBDurationSeconds
+func VerifParseDVBDurationSeconds(bs []byte) (time.Duration, error) {
+	return parseDVBDurationSeconds(astikit.NewBytesIterator(bs))
+}
+
+// VerifParseDVBDurationByte exposes parseDVBDurationByte
+func VerifParseDVBDurationByte(b byte) time.Duration { return parseDVBDurationByte(b) }
+
+// VerifWriteDVBDurationMinutes exposes writeDVBDurationMinutes
+func VerifWriteDVBDurationMinutes(w io.Writer, d time.Duration) (int, error) {
+	return writeDVBDurationMinutes(verifWriter(w), d)
+}
+
+// VerifWriteDVBDurationSeconds exposes writeDVBDurationSeconds
+func VerifWriteDVBDurationSeconds(w io.Writer, d time.Duration) (int, error) {
+	return writeDVBDurationSeconds(verifWriter(w), d)
+}
+
+// VerifDVBDurationByteRepresentation exposes dvbDurationByteRepresentation
+func VerifDVBDurationByteRepresentation(n uint8) uint8 { return dvbDurationByteRepresentation(n) }
+
+// ---- packet_pool.go, data.go ----
+
+// VerifPool wraps a packet pool and its program map
+type VerifPool struct {
+	pm *programMap
+	p  *packetPool
+}
+
+// VerifNewPool creates a packet pool with an empty program map
+func VerifNewPool() *VerifPool {
+	pm := newProgramMap()
+	return &VerifPool{pm: pm, p: newPacketPool(pm)}
+}
+
+// Add exposes packetPool.addUnlocked
+func (v *VerifPool) Add(p *Packet) []*Packet { return v.p.addUnlocked(p) }
+
+// Dump exposes packetPool.dumpUnlocked
+func (v *VerifPool) Dump() []*Packet { return v.p.dumpUnlocked() }
+
+// SetProgram exposes programMap.setUnlocked
+func (v *VerifPool) SetProgram(pid, number uint16) { v.pm.setUnlocked(pid, number) }
+
+// ParseData exposes parseData with the pool's program map
+func (v *VerifPool) ParseData(ps []*Packet, prs PacketsParser) ([]*DemuxerData, error) {
+	return parseData(ps, prs, v.pm)
+}
+
+// Queues returns the PIDs that have an accumulator and the length of each queue, by increasing PID
+func (v *VerifPool) Queues() (pids []uint16, lens []int) {
+	var keys []int
+	for k := range v.p.b {
+		keys = append(keys, int(k))
+	}
+	sort.Ints(keys)
+	for _, k := range keys {
+		pids = append(pids, uint16(k))
+		lens = append(lens, len(v.p.b[uint32(k)].q))
+	}
+	return
+}
+
+// VerifIsPSIComplete exposes isPSIComplete
+func VerifIsPSIComplete(ps []*Packet) bool { return isPSIComplete(ps) }
+
+// VerifIsPSIPayload exposes isPSIPayload for a program map holding the given PIDs
+func VerifIsPSIPayload(pid uint16, pmtPIDs []uint16) bool {
+	pm := newProgramMap()
+	for _, p := range pmtPIDs {
+		pm.setUnlocked(p, 1)
+	}
+	return isPSIPayload(pid, pm)
+}
+
+// VerifIsPESPayload exposes isPESPayload
+func VerifIsPESPayload(bs []byte) bool { return isPESPayload(bs) }
+
+// VerifHasDiscontinuity exposes hasDiscontinuity
+func VerifHasDiscontinuity(ps []*Packet, p *Packet) bool { return hasDiscontinuity(ps, p) }
+
+// VerifIsSameAsPrevious exposes isSameAsPrevious
+func VerifIsSameAsPrevious(ps []*Packet, p *Packet) bool { return isSameAsPrevious(ps, p) }
+
+// VerifPoisonBytesPool hands the process-wide payload pool n buffers of the given size filled with b
+func VerifPoisonBytesPool(n, size int, b byte) {
+	items := make([]*bytesPoolItem, 0, n)
+	for k := 0; k < n; k++ {
+		it := bytesPool.get(size)
+		for j := range it.s {
+			it.s[j] = b
+		}
+		items = append(items, it)
+	}
+	for _, it := range items {
+		bytesPool.put(it)
+	}
+}
+
+// ---- packet_buffer.go ----
+
+// VerifAutoDetectPacketSize exposes autoDetectPacketSize
+func VerifAutoDetectPacketSize(r io.Reader) (int, error) { return autoDetectPacketSize(r) }
+
+// ---- demuxer.go ----
+
+// VerifDemuxerState is a snapshot of the per-pass state of a Demuxer
+type VerifDemuxerState struct {
+	DataBufferLen   int
+	HasPacketBuffer bool
+	PacketSize      int
+	PoolPIDs        []uint16
+	PoolLens        []int
+	ProgramMapPIDs  []uint16
+}
+
+// VerifState returns a snapshot of the demuxer's internal state
+func (dmx *Demuxer) VerifState() (s VerifDemuxerState) {
+	s.DataBufferLen = len(dmx.dataBuffer)
+	if dmx.packetBuffer != nil {
+		s.HasPacketBuffer = true
+		s.PacketSize = dmx.packetBuffer.packetSize
+	}
+	var keys []int
+	for k := range dmx.packetPool.b {
+		keys = append(keys, int(k))
+	}
+	sort.Ints(keys)
+	for _, k := range keys {
+		s.PoolPIDs = append(s.PoolPIDs, uint16(k))
+		s.PoolLens = append(s.PoolLens, len(dmx.packetPool.b[uint32(k)].q))
+	}
+	keys = keys[:0]
+	for k := range dmx.programMap.p {
+		keys = append(keys, int(k))
+	}
+	sort.Ints(keys)
+	for _, k := range keys {
+		s.ProgramMapPIDs = append(s.ProgramMapPIDs, uint16(k))
+	}
+	return
+}
+
+// ---- muxer.go ----
+
+// VerifMuxerState is a snapshot of the counters and flags of a Muxer
+type VerifMuxerState struct {
+	PATCC, PMTCC, PATVersion, PMTVersion int
+	PMUpdated, PMTUpdated                bool
+	NextPID                              uint16
+	RetransmitCounter, RetransmitPeriod  int
+	ESPIDs                               []uint16
+	ESCCs                                []int
+	PMTPIDs                              []uint16
+	PCRPID                               uint16
+}
+
+// VerifState returns a snapshot of the muxer's internal state
+func (m *Muxer) VerifState() (s VerifMuxerState) {
+	s.PATCC, s.PMTCC = m.patCC.get(), m.pmtCC.get()
+	s.PATVersion, s.PMTVersion = m.patVersion.get(), m.pmtVersion.get()
+	s.PMUpdated, s.PMTUpdated = m.pmUpdated, m.pmtUpdated
+	s.NextPID = m.nextPID
+	s.RetransmitCounter, s.RetransmitPeriod = m.tablesRetransmitCounter, m.tablesRetransmitPeriod
+	var keys []int
+	for k := range m.esContexts {
+		keys = append(keys, int(k))
+	}
+	sort.Ints(keys)
+	for _, k := range keys {
+		s.ESPIDs = append(s.ESPIDs, uint16(k))
+		s.ESCCs = append(s.ESCCs, m.esContexts[uint32(k)].cc.get())
+	}
+	for _, es := range m.pmt.ElementaryStreams {
+		s.PMTPIDs = append(s.PMTPIDs, es.ElementaryPID)
+	}
+	s.PCRPID = m.pmt.PCRPID
+	return
+}
